@@ -5,6 +5,7 @@ import (
 	"go/ast"
 	"go/token"
 	"go/types"
+	"strconv"
 	"strings"
 
 	"golang.org/x/tools/go/ssa"
@@ -114,6 +115,8 @@ func (x *Exec) appendModel(fr *frame, s *State, dst, src Value, pos token.Pos) V
 	}
 	sref, soff, slen = src.L[0], src.L[1], src.L[2]
 	ref, off, ln, cp := dst.L[0], dst.L[1], dst.L[2], dst.L[3]
+	x.noteSlice(s, dst)
+	x.noteSlice(s, src)
 	newLen := x.C.Define("newlen", BVOp("bvadd", ln, slen))
 	inPlace := x.C.Define("inplace", BVCmp("bvule", newLen, cp))
 	fresh := x.alloc(s, "append")
@@ -123,15 +126,42 @@ func (x *Exec) appendModel(fr *frame, s *State, dst, src Value, pos token.Pos) V
 	rref := Ite(inPlace, ref, fresh)
 	roff := Ite(inPlace, off, BVLitI(64, 0))
 	rcap := Ite(inPlace, cp, ncap)
+	// statically known small number of appended elements: explicit stores
+	nNew := int64(-1)
+	if strings.HasPrefix(slen.S, "#x") {
+		if v, err := strconv.ParseUint(slen.S[2:], 16, 64); err == nil && v <= 8 {
+			nNew = int64(v)
+		}
+	}
+	leafSorts := x.E.memLeafSorts(sl.Elem())
 	for _, k := range x.E.memSorts(sl.Elem()) {
 		h := x.heap(s, k)
 		oldObj := Select(h, ref, ObjSort(k))
 		srcObj := Select(h, sref, ObjSort(k))
-		obj := x.C.Fresh("obj", ObjSort(k))
 		j := x.C.BoundVar("j", SBV64)
+		oldLeaves := mulOff(ln, st)
+		if nNew >= 0 {
+			// base: the old object (in place) or a fresh object holding a copy of the old elements
+			copied := x.C.Fresh("obj", ObjSort(k))
+			x.C.Assume(Implies(s.Reach, Forall([]Term{j}, Implies(BVCmp("bvult", j, oldLeaves),
+				Eq(Select(copied, j, k), Select(oldObj, BVOp("bvadd", off, j), k))))))
+			obj := Ite(inPlace, oldObj, copied)
+			for e := int64(0); e < nNew; e++ {
+				for l, ls := range leafSorts {
+					if ls != k {
+						continue
+					}
+					dstOff := BVOp("bvadd", roff, BVOp("bvadd", oldLeaves, BVLitI(64, e*st+int64(l))))
+					srcOff := offAdd(soff, e*st+int64(l))
+					obj = Store(obj, dstOff, Select(srcObj, srcOff, k))
+				}
+			}
+			s.Heaps[k] = x.C.Define("H", Store(h, rref, x.C.Define("obj", obj)))
+			continue
+		}
+		obj := x.C.Fresh("obj", ObjSort(k))
 		// position of j relative to the start of the result slice
 		rel := BVOp("bvsub", j, roff)
-		oldLeaves := mulOff(ln, st)
 		addLeaves := mulOff(slen, st)
 		inOld := BVCmp("bvult", rel, oldLeaves)
 		inNew := BVCmp("bvult", BVOp("bvsub", rel, oldLeaves), addLeaves)
